@@ -89,8 +89,8 @@ func canReturnSentinel(c *Ctx, fn *ssa.Function, global string, depth int, seen 
 func checkC37(c *Ctx, r *Report) {
 	const pkgBE = "lib/backend"
 	const sentinel = "lib/backend/backenderrors.ErrBlobNotFound"
-	r.Explain = "One clause of the backend contract, decided by cross-checking the sibling implementations of backend.Client: (R1) in every implementation, Stat and Download can return the not-found sentinel backenderrors.ErrBlobNotFound *by identity* (callers compare with ==): through a direct return of the global, or through the unwrapped error of a callee (or of an implementation of an invoked interface) that returns it. An implementation that wraps or drops the sentinel can never report 'not found'."
-	r.NotDecided = "Everything about stored bytes, sizes and listings: the behaviour of S3/GCS/HDFS/SQL/HTTP services and their SDKs is outside kraken's source. That the sentinel is returned exactly for names never uploaded (rather than on some path) is not decided either."
+	r.Explain = "One clause of the backend contract, decided by cross-checking the sibling implementations of backend.Client: (R1) in every implementation, Stat and Download can return the not-found sentinel backenderrors.ErrBlobNotFound *by identity* (callers compare with ==): through a direct return of the global, or through the unwrapped error of a callee (or of an implementation of an invoked interface) that returns it. An implementation that wraps or drops the sentinel can never report 'not found'. (R2) a backend package that stores blobs in local files opens every write destination truncated or exclusively created, so that a shorter re-upload cannot keep the tail of the previous content (a necessary condition of 'returns exactly the bytes last uploaded')."
+	r.NotDecided = "Everything else about stored bytes, sizes and listings: the behaviour of S3/GCS/HDFS/SQL/HTTP services and their SDKs is outside kraken's source. That the sentinel is returned exactly for names never uploaded (rather than on some path) is not decided either."
 	r1 := r.Rule("R1", "E-SIBLING", "every type under lib/backend that implements backend.Client declares Stat and Download from which ErrBlobNotFound can flow out unwrapped", 16)
 	var iface *types.Interface
 	if p := c.PkgByID[K+"/"+pkgBE]; p != nil && p.Types != nil {
@@ -127,6 +127,66 @@ func checkC37(c *Ctx, r *Report) {
 		}
 		impls[tn].fns[fn.Name()] = fn
 	}
+	// R2: a backend that keeps blobs in local files (the testfs server) must open the
+	// destination of an upload truncated (or freshly created): a writable open that
+	// keeps the old content leaves the tail of a longer earlier upload behind a
+	// shorter re-upload, so Download returns bytes that were never uploaded together.
+	r2 := r.Rule("R2", "E-FLAGS", "every file a lib/backend package opens for writing is opened truncated or exclusively created (os.Create / os.WriteFile, or os.OpenFile with constant flags containing O_TRUNC or O_EXCL), or is truncated through the returned handle in the same function", 1)
+	var beFns []*ssa.Function
+	for _, fn := range c.Funcs {
+		if c.isFixture(fn) || !strings.HasPrefix(pkgOf(fn), pkgBE) || strings.Contains(pkgOf(fn), "mock") {
+			continue
+		}
+		beFns = append(beFns, fn)
+	}
+	sort.Slice(beFns, func(i, j int) bool { return funcName(beFns[i]) < funcName(beFns[j]) })
+	for _, fn := range beFns {
+		for _, cs := range callsIn(fn) {
+			switch cs.Callee {
+			case "os.Create", "os.WriteFile", "io/ioutil.WriteFile":
+				r.OK(r2, fn, cs.Callee, cs.Instr, true, "truncating open")
+			case "os.OpenFile":
+				if len(cs.Instr.Common().Args) < 2 {
+					continue
+				}
+				k, isConst := intConst(cs.Instr.Common().Args[1])
+				switch {
+				case !isConst:
+					r.Undecided(r2, fn, "os.OpenFile flags", cs.Instr, "open flags are not constant")
+				case k&0x3 == 0:
+					r.OK(r2, fn, "os.OpenFile(read-only)", cs.Instr, false, "not opened for writing")
+				case k&(0x200|0x80) != 0:
+					r.OK(r2, fn, "os.OpenFile(O_TRUNC|O_EXCL)", cs.Instr, true, "truncating or exclusive open")
+				default:
+					truncated := false
+					if v := cs.Instr.Value(); v != nil {
+						var walk func(x ssa.Value, d int)
+						walk = func(x ssa.Value, d int) {
+							if d > 3 || x.Referrers() == nil {
+								return
+							}
+							for _, rf := range *x.Referrers() {
+								switch y := rf.(type) {
+								case *ssa.Extract:
+									walk(y, d+1)
+								case *ssa.Phi:
+									walk(y, d+1)
+								case ssa.CallInstruction:
+									if calleeName(y.Common()) == "(*os.File).Truncate" && len(y.Common().Args) > 0 && y.Common().Args[0] == x {
+										truncated = true
+									}
+								}
+							}
+						}
+						walk(v, 0)
+					}
+					r.Check(truncated, r2, fn, "os.OpenFile(writable, keeps content)", cs.Instr, "truncated through the handle",
+						"the file is opened for writing without O_TRUNC/O_EXCL and never truncated: a shorter upload under an existing name keeps the tail of the previous content")
+				}
+			}
+		}
+	}
+
 	var names []string
 	for n := range impls {
 		names = append(names, n)
